@@ -339,6 +339,9 @@ retry_from_root:
             // L1+
             ctx->stack_pop();
             st = &ctx->stack_top(); // sync alias
+            // resume the upper layer after the link that led here, not after the key of the deleted layer
+            last_key = st->key;
+            cmp_to_end = st->compare_to_end;
             goto retry_from_root; // NOLINT
         }
         if (!rv.get_root()) {
